@@ -329,6 +329,10 @@ def run_check(modname, tier, seed, workers=None, budget_s=None, only_index=None)
     os.makedirs(evdir, exist_ok=True)
     with open(os.path.join(evdir, prop + '.json'), 'w') as f:
         json.dump(ev, f, indent=1, sort_keys=True, default=str)
+    if os.environ.get('VERIF_DUMP_COVER'):
+        # developer aid: the complete cover set (the evidence keeps only its size and a few examples)
+        with open(os.environ['VERIF_DUMP_COVER'], 'w') as f:
+            f.write('\n'.join(sorted(str(k) for k in cover)) + '\n')
     env.out('%s tier=%s seed=%d runs=%d ticks=%d distinct=%d known=%d violations=%d harness_errors=%d wall=%.1fs digest=%s%s' % (
         prop, tier, seed, total['n'], total['ticks'], len(nontrivial), len(known_seen), len(new_viol),
         len(total['harness']) + (1 if broken else 0), wall, dig.hexdigest(), ' TRUNCATED' if truncated else ''))
